@@ -20,6 +20,13 @@ ENTRY = 'h_sim'
 TVARS = ['t0', 't1', 't2']
 PROBE_T = [(1000.0, -2000.0, 500.0), (-3.7, 0.41, 12.9), (-250.0, 130.0, 77.0), (0.6, 0.6, 0.6), (0.7, 0.0, 0.0), (0.0, -1.4, 0.0), (35.3, -71.9, 12.1), (-1.05, -1.05, -1.05), (5.5, 5.5, 5.5), (-900.0, -900.0, -900.0)]
 
+# single-axis translations by fractions and multiples of the voxel size of the contact grid (3*l_min + 2*cut-off = 1.4 here)
+for _k in range(3):
+    for _m in (0.35, 0.7, 1.05, 1.4, 2.1, 2.8):
+        for _s in (1.0, -1.0):
+            _t = [0.0, 0.0, 0.0]; _t[_k] = _s * _m
+            PROBE_T.append(tuple(_t))
+
 def tissues():
     """name, kinds (0 T4, 1 T6), classes (0 epithelial 1 ecm 2 lumen 3 nucleus 4 static), per cell (scale, offset)"""
     return [
@@ -77,7 +84,7 @@ def run_config(cfg, quick):
     z = SV.Z3Ctx()
     T = [S.var(v) for v in TVARS]
     din, _ = inputs(tis, nsteps, T)
-    box = [S.band(S.cmp('ge', v, S.const(-100000)), S.cmp('le', v, S.const(100000))) for v in T]
+    box = [S.band(S.cmp('ge', v, S.const(-100)), S.cmp('le', v, S.const(100))) for v in T]
     sess = api.Session(ir, mode='real', overrides=ov, setup=setup)
     holder = {}
     def on_path(c, r):
@@ -85,6 +92,16 @@ def run_config(cfg, quick):
     ctl, res = sess.explore(ENTRY, din, iin, assumptions=box, zctx=z, max_paths=12, branch_timeout_ms=5000)
     out['paths'] = ctl.paths_done; out['queries'] = z.queries; out['solver_s'] = z.solver_time; out['functions'] = sorted(sess.functions_called)
     real = [(tr, pc, r) for (tr, pc, r) in res if getattr(r, 'status', None) != 'pathend']
+    # translations proposed by the solver: models under which a t-dependent integer / decision takes different values
+    out['probes'] = []
+    ub = getattr(ctl, 'unbounded', None)
+    if ub:
+        for (val, m) in ub['witnesses']:
+            out['probes'].append(tuple(float(m.get(v, 0)) for v in TVARS))
+    if len(real) > 1:
+        for (tr, pc, r) in real[:4]:
+            stw, m = SV.satisfiable(z, pc, 5000)
+            if stw == 'sat' and m: out['probes'].append(tuple(float(m.get(v, 0)) for v in TVARS))
     forks = [d for (tr, pc, r) in real for d in tr if not d.forced]
     ob('no decision and no address depends on the translation (single path, nothing left for the solver to split)', 'proved' if (len(real) == 1 and not forks and ctl.exhausted) else 'violated',
        {'paths': len(real), 'unforced decisions': len(forks)})
@@ -139,7 +156,7 @@ def run_config(cfg, quick):
     out['wall'] = time.time() - t0
     return out
 
-def native_differential(cfg):
+def native_differential(cfg, extra=()):
     """native runs at t = 0 and at the probe translations; returns list of differences beyond rounding"""
     contact, dynamic, ti, nsteps = cfg
     nat = build.build_native(['h_sim.cpp'], contact=contact, dynamic=dynamic)
@@ -151,7 +168,7 @@ def native_differential(cfg):
     if q0.get('status') != 0:
         native.close(); return [{'t': None, 'what': 'native reference run failed: %r' % (q0.get('status'),)}]
     lay = layout(q0['i'], contact)
-    for T in PROBE_T:
+    for T in list(extra) + PROBE_T:
         din, _ = inputs(tis, nsteps, T)
         q = native.call(ENTRY, din, iin)
         if q.get('status') != 0:
@@ -179,7 +196,7 @@ def main(chk):
                 cfgs.append((contact, dynamic, ti, nsteps))
     chk.trusted += ['clang -O1 lowering (validated per run on the untranslated tissue, bitwise against the native build)', 'irsym incl. OpenMP runtime model (sequential semantics), writer / filesystem stubs, cell_divider::divide_cell replaced by its contract',
                     'exact polynomial normal form in t (rational coefficients); z3 for every decision or address that still mentions t']
-    chk.assumptions += ['exact-real reading of the translated coordinates: rounding of c_i + t is not modelled (the property allows differences "to rounding accuracy")', '|t_k| <= 1e5',
+    chk.assumptions += ['exact-real reading of the translated coordinates: rounding of c_i + t is not modelled (the property allows differences "to rounding accuracy")', '|t_k| <= 100 for the solver decisions (the polynomial identities themselves hold for every t)',
                         'decisions that do not mention t are taken as in the untranslated floating-point run', 'coefficients of t below 1e-12 are rounding residue of factors that were evaluated in floating point (e.g. barycentric weights summing to 1 +- 1 ulp) and are dropped: with |t| <= 1e5 no value changes by more than 1e-7', 'tissue geometry, parameters and cell classes concrete (listed in bounds)']
     chk.bounds = {'tissues': [t[0] for t in tissues()], 'iterations': nsteps, 'contact models': '0, 1, 2', 'dynamic models': '0 (semi-implicit), 1 (overdamped)',
                   'outside': 'rounding effects of large translations (C20 covers the grid index arithmetic bit-precisely), trajectories longer than the bound, real cell division (stubbed), polarisation modes other than the default'}
@@ -211,7 +228,7 @@ def main(chk):
         for (name, status, core, t, detail) in o['obs']: chk.ob(name, status, core, t, detail)
         if len(chk.samples) < 8 and o['obs']: chk.samples.append({'configuration': o['name'], 'paths': o['paths'], 'obligations': [(n.split('/')[-1][:80], s) for (n, s, _, _, _) in o['obs']]})
         if o['cands']:
-            diffs = native_differential(cfg)
+            diffs = native_differential(cfg, o.get('probes', []))
             for (what, detail) in o['cands']:
                 rep = {'configuration': o['name'], 'what': what, 'detail': detail, 'native differential (t = 0 against probe translations)': diffs,
                        'how': 'harness h_sim (/verif/harness/h_sim.cpp), din[7..9] = translation; contact/dynamic model selected with the guarded overrides'}
